@@ -36,6 +36,10 @@ pub enum Variant
     /// Exclusive system whose body flushes the world's command queue (`World::flush`, as any `World::syscall`,
     /// `World::react`, `World::broadcast` ... would) before it reads its event.
     ExclusiveFlush,
+    /// Ordinary system queuing through `DeferredWorld::commands()` (the world's own command queue). Used only by
+    /// series that judge reader visibility (C04): when such commands run relative to the runner's bookkeeping is not
+    /// covered by the statements (DESIGN section 9).
+    Deferred,
 }
 
 /// One reaction trigger.
